@@ -2,6 +2,8 @@
 #![allow(clippy::too_many_arguments)]
 
 mod globals;
+#[cfg(capy_verif)]
+pub mod verif;
 
 #[cfg(test)]
 mod tests;
@@ -604,6 +606,14 @@ impl<'a, F: EvalComptimeFn> InferenceCtx<'a, F> {
                     // }),
         );
 
+        #[cfg(capy_verif)]
+        verif::log(verif::SchedEvent::Seed(
+            self.to_infer
+                .peek_all()
+                .map(|all| all.into_iter().map(|l| format!("{l:?}")).collect())
+                .unwrap_or_default(),
+        ));
+
         if self.to_infer.is_empty() {
             return InferenceResult {
                 tys: self.tys,
@@ -665,6 +675,13 @@ impl<'a, F: EvalComptimeFn> InferenceCtx<'a, F> {
 
             assert!(!leaves.is_empty());
 
+            #[cfg(capy_verif)]
+            verif::log(verif::SchedEvent::Round {
+                cyclic: self.to_infer.in_cycle(),
+                offered: leaves.iter().map(|l| format!("{l:?}")).collect(),
+                len: self.to_infer.len(),
+            });
+
             // println!("inferring leaves: {leaves:#?}");
 
             for inferrable in leaves {
@@ -681,9 +698,16 @@ impl<'a, F: EvalComptimeFn> InferenceCtx<'a, F> {
                             inferrable.debug(self.interner)
                         );
                         self.to_infer.remove(&inferrable);
+                        #[cfg(capy_verif)]
+                        verif::log(verif::SchedEvent::Done(format!("{inferrable:?}")));
                     }
                     Err(deps) => {
                         // println!(" - requires deps");
+                        #[cfg(capy_verif)]
+                        verif::log(verif::SchedEvent::Deps(
+                            format!("{inferrable:?}"),
+                            deps.iter().map(|d| format!("{d:?}")).collect(),
+                        ));
                         self.to_infer.insert_deps(inferrable, deps);
                     }
                 }
@@ -700,6 +724,8 @@ impl<'a, F: EvalComptimeFn> InferenceCtx<'a, F> {
             // println!();
 
             if self.to_infer.is_empty() {
+                #[cfg(capy_verif)]
+                verif::log(verif::SchedEvent::End);
                 break;
             }
         }
